@@ -212,4 +212,46 @@ Proof.
   destruct (peval (eplug C e) en) as [w| |]; cbn; try reflexivity.
   destruct (item_of w); reflexivity.
 Qed.
+
+(* the same for `return C[e];`, the expression statement `C[e];` and the assignment `y = C[e];` (y <> x) *)
+Lemma bind_subexpr_return k x t v C e en out :
+  cfctx x C = true -> callfree e = true -> peval e en = PV v ->
+  exec structs callf k (SBlock (SSeq (SLet x t e) (SReturn (Some (eplug C (EVar x)))))) en out =
+  exec structs callf k (SReturn (Some (eplug C e))) en out.
+Proof.
+  intros HC He Hv.
+  assert (Hv' : peval e ([] :: en) = PV v) by (rewrite peval_push_scope; exact Hv).
+  destruct (bind_subexpr_eval x v C e ([] :: en) out HC He Hv') as (E1 & E2 & _).
+  destruct (bind_subexpr_eval x v C e en out HC He Hv) as (_ & _ & E3).
+  cbn [exec]. rewrite E1. cbn [bind fst snd]. rewrite E2, E3. rewrite peval_push_scope.
+  destruct (peval (eplug C e) en) as [w| |]; cbn; reflexivity.
+Qed.
+
+Lemma bind_subexpr_exprstmt k x t v C e en out :
+  cfctx x C = true -> callfree e = true -> peval e en = PV v ->
+  exec structs callf k (SBlock (SSeq (SLet x t e) (SExpr (eplug C (EVar x))))) en out =
+  exec structs callf k (SExpr (eplug C e)) en out.
+Proof.
+  intros HC He Hv.
+  assert (Hv' : peval e ([] :: en) = PV v) by (rewrite peval_push_scope; exact Hv).
+  destruct (bind_subexpr_eval x v C e ([] :: en) out HC He Hv') as (E1 & E2 & _).
+  destruct (bind_subexpr_eval x v C e en out HC He Hv) as (_ & _ & E3).
+  cbn [exec]. rewrite E1. cbn [bind fst snd]. rewrite E2, E3. rewrite peval_push_scope.
+  destruct (peval (eplug C e) en) as [w| |]; cbn; reflexivity.
+Qed.
+
+Lemma bind_subexpr_assign k x t v y C e en out :
+  Nat.eqb y x = false -> cfctx x C = true -> callfree e = true -> peval e en = PV v ->
+  exec structs callf k (SBlock (SSeq (SLet x t e) (SAssign y (eplug C (EVar x))))) en out =
+  exec structs callf k (SAssign y (eplug C e)) en out.
+Proof.
+  intros Hy HC He Hv.
+  assert (Hv' : peval e ([] :: en) = PV v) by (rewrite peval_push_scope; exact Hv).
+  destruct (bind_subexpr_eval x v C e ([] :: en) out HC He Hv') as (E1 & E2 & _).
+  destruct (bind_subexpr_eval x v C e en out HC He Hv) as (_ & _ & E3).
+  cbn [exec]. rewrite E1. cbn [bind fst snd]. rewrite E2, E3. rewrite peval_push_scope.
+  destruct (peval (eplug C e) en) as [w| |]; cbn [lift bind fst snd]; try reflexivity.
+  cbn [declare update update_scope]. rewrite Hy. cbn [update_scope].
+  destruct (update y w en) as [en'|]; cbn; reflexivity.
+Qed.
 End P.
